@@ -304,7 +304,18 @@ def ob_annseq_revcomp_twice(ss: int, f: int, l: int, rev: bool, ml: bool, mr: bo
     if str(once.sequence) != _rc(SEQ6):
         return False
     twice = once.reverse_complement(sequence_start=ss)
-    return twice == aseq and str(twice.sequence) == SEQ6 and twice.sequence_start == ss
+    if not (twice == aseq and str(twice.sequence) == SEQ6 and twice.sequence_start == ss):
+        return False
+    # flags without a direction (UNK_LOC, BETWEEN) are kept as they are
+    for extra in (D.UNK_LOC, D.BETWEEN, D.UNK_LOC | D.BETWEEN):
+        feat2 = Feature("CDS", [Location(f, l, strand, mkdefect(ml, mr, bl, br) | extra)], {"q": "v"})
+        aseq2 = AnnotatedSequence(Annotation([feat2]), NucleotideSequence(SEQ6), sequence_start=ss)
+        once2 = aseq2.reverse_complement(sequence_start=ss)
+        if list(list(once2.annotation)[0].locs)[0].defect != (mkdefect(mr, ml, br, bl) | extra):
+            return False
+        if not (once2.reverse_complement(sequence_start=ss) == aseq2):
+            return False
+    return True
 
 
 def ob_annseq_copy(ss: int, f: int, l: int) -> bool:
